@@ -12,13 +12,34 @@
 # See the License for the specific language governing permissions and
 # limitations under the License.
 import ast
-from typing import List, Tuple
+from typing import List, Tuple, get_args
 
 from sympy import Symbol
 from sympy.logic.boolalg import Boolean
 
 from ..types import TType, TypeErrorException
 from . import Binding, Env, decompose_to_symbols, exceptions, translate_expression
+
+
+def _rename_tuple_bits(res, ttype, base):
+    """Name the bits of a tuple typed value after the structure of its type (a tuple
+    variable evaluates to a flat list of bits)"""
+
+    def names_of(t, b):
+        if hasattr(t, "BIT_SIZE"):
+            return [f"{b}.{i}" for i in range(t.BIT_SIZE)]
+        elif len(get_args(t)) > 0:
+            return [n for i, a in enumerate(get_args(t)) for n in names_of(a, f"{b}.{i}")]
+        return [b]
+
+    if len(get_args(ttype)) == 0:
+        return res
+
+    names = names_of(ttype, base)
+    if len(names) != len(res):
+        return res
+
+    return [(n, r[1]) for n, r in zip(names, res)]
 
 
 def translate_statement(  # noqa: C901
@@ -56,7 +77,7 @@ def translate_statement(  # noqa: C901
         target = stmt.targets[0].id
 
         tval, val = translate_expression(stmt.value, env)  # TODO: typecheck
-        res = decompose_to_symbols(val, f"{target}")
+        res = _rename_tuple_bits(decompose_to_symbols(val, f"{target}"), tval, target)
 
         env.bind(Binding(target, tval, [x[0] for x in res]), rebind=target in env)
         res = list(map(lambda x: (Symbol(x[0]), x[1]), res))
@@ -80,7 +101,7 @@ def translate_statement(  # noqa: C901
         elif texp != ret_type:
             raise TypeErrorException(texp, ret_type)
 
-        res = decompose_to_symbols(vexp, "_ret")
+        res = _rename_tuple_bits(decompose_to_symbols(vexp, "_ret"), texp, "_ret")
         env.bind(Binding("_ret", texp, [x[0] for x in res]))
         res = list(map(lambda x: (Symbol(x[0]), x[1]), res))
         return res, env
